@@ -114,6 +114,24 @@ def run_linsolve(case, ctx, rng):
         kw["symmetric"] = True
     elif sol == "flag:hermitian":
         kw["hermitian"] = True
+    # first evaluation with some dofs decoupled (rows/columns zero apart from the diagonal, as boundary conditions or void
+    # elements produce); later evaluations of the same module instance couple them again (supports released)
+    Afull = A
+    if n >= 3 and rng.random() < 0.4 and case["cls"] not in ("diag", "cdiag"):
+        idx = rng.choice(n, size=int(rng.integers(1, n - 1)), replace=False)
+        A = A.copy()
+        dg = np.diag(A)[idx].copy()
+        A[idx, :] = 0
+        A[:, idx] = 0
+        A[idx, idx] = np.where(np.abs(dg) > 1e-3 * np.max(np.abs(Afull)), dg, np.max(np.abs(Afull)))
+        rest = np.setdiff1d(np.arange(n), idx)
+        # keep the matrix inside its class: LinSolve chooses its solver for the class of the first matrix (a fully diagonal
+        # first matrix would select the diagonal solver for good)
+        if np.linalg.cond(A[np.ix_(rest, rest)]) > 1e6 or np.count_nonzero(A - np.diag(np.diag(A))) == 0 or \
+                (case["cls"] in ("gen", "cgen") and np.allclose(A, A.T)) or (case["cls"] in ("triu", "tril", "ctriu") and np.allclose(A, A.T)):
+            A = Afull
+        else:
+            ctx.count("decoupled_then_coupled")
     sA, sb = pym.Signal("A", matgen.to_storage(A, st)), pym.Signal("b", b)
     m = pym.LinSolve([sA, sb], pym.Signal("x"), **kw)
     if sol == "nolda":
@@ -134,9 +152,9 @@ def run_linsolve(case, ctx, rng):
                             n=n, repetition=rep)
         # next repetition: a new matrix of the same class and a new rhs through the same module instance
         if case["cls"] in ("fe2", "fe3", "fepoisson"):
-            A = A * rng.uniform(0.5, 2.0)
+            A = Afull * rng.uniform(0.5, 2.0)
         else:
-            A = matgen.perturb_same_class(rng, A, case["cls"])
+            A = matgen.perturb_same_class(rng, Afull, case["cls"])
         b = _rhs(rng, n, form, np.iscomplexobj(b))
         sA.state = matgen.to_storage(A, st)
         sb.state = b
